@@ -12,6 +12,7 @@ import (
 	"os"
 	"sort"
 	"strings"
+	"sync"
 	"time"
 
 	"github.com/irai/packet"
@@ -287,9 +288,24 @@ func histories(r *lib.Run, rng *lib.Rand) (files []savedFile) {
 		if short {
 			special = "short"
 		}
-		sel := hi % 8
+		sel := hi % 16
 		if short {
 			sel = -1
+		}
+		switch sel {
+		// ops after which the set of Allocated leases shrinks: is the file re-saved? (checked after EVERY step)
+		case 6:
+			special = "decline"
+		case 7:
+			special = "release"
+		case 8:
+			special = "select-other"
+		case 9:
+			special = "tick"
+		case 10:
+			special = "resubnet"
+		case 11:
+			special = "rediscover"
 		}
 		switch sel {
 		case 3:
@@ -343,13 +359,60 @@ func histories(r *lib.Run, rng *lib.Rand) (files []savedFile) {
 			depth = 1
 		}
 		classes := map[string]bool{}
+		stale := map[bindingT]bool{}
 		for step := 0; step < depth; step++ {
 			cl := clients[rng.Intn(len(clients))]
 			k := rng.Intn(10)
 			if step == 0 && special != "" {
 				cl, k = clients[0], 0
 			}
+			opName := "acquire"
+			if step == 1 {
+				if b, bound := acked[lib.Hex(clients[0].key())]; bound {
+					cl = clients[0]
+					a := tokAddr(b.ip)
+					switch special {
+					case "decline": // DHCPDECLINE of the acknowledged address
+						sv.xid++
+						a4, h4 := a.As4(), c.nic.host.As4()
+						sv.exchange(cl.mac, zero4, bcast4, bcastMAC, mkDHCP(4, sv.xid, netip.Addr{}, cl.mac, append(cl.opts(), optT{50, a4[:]}, optT{54, h4[:]})), sv.xid)
+						delete(acked, lib.Hex(cl.key()))
+						k, opName = 99, "decline"
+					case "release": // DHCPRELEASE: the server keeps the lease (handleRelease only logs)
+						sv.xid++
+						h4 := c.nic.host.As4()
+						sv.exchange(cl.mac, a, c.nic.host, lib.HostMAC, mkDHCP(7, sv.xid, a, cl.mac, append(cl.opts(), optT{54, h4[:]})), sv.xid)
+						k, opName = 99, "release"
+					case "select-other": // REQUEST selecting another server: the lease is freed
+						sv.xid++
+						a4, o4 := a.As4(), c.nic.router.As4()
+						sv.exchange(cl.mac, zero4, bcast4, bcastMAC, mkDHCP(3, sv.xid, netip.Addr{}, cl.mac, append(cl.opts(), optT{50, a4[:]}, optT{54, o4[:]})), sv.xid)
+						delete(acked, lib.Hex(cl.key()))
+						k, opName = 99, "select-other"
+					case "tick": // MinuteTicker after every lease has expired
+						sv.h.MinuteTicker(time.Now().Add(6 * time.Hour))
+						for key := range acked {
+							delete(acked, key)
+						}
+						k, opName = 99, "tick"
+					case "resubnet": // the client becomes captured: its next message re-creates the lease on net2
+						sv.s.Capture(cl.mac)
+						isCaptured[lib.Hex(cl.mac)] = true
+						captured = append(captured, cl.mac)
+						capTok = macsTok(captured)
+						sv.renew(cl, a)
+						delete(acked, lib.Hex(cl.key()))
+						k, opName = 99, "resubnet"
+					case "rediscover": // DISCOVER of a bound client: lease in state discover, the binding stays on disk
+						sv.discoverOnly(cl, netip.Addr{})
+						delete(acked, lib.Hex(cl.key()))
+						k, opName = 99, "rediscover"
+					}
+				}
+			}
 			switch {
+			case k == 99:
+				classes[opName] = true
 			case k < 6: // acquire, sometimes with a requested address (inside the subnet the client belongs to)
 				want := netip.Addr{}
 				if rng.Chance(15) {
@@ -416,6 +479,7 @@ func histories(r *lib.Run, rng *lib.Rand) (files []savedFile) {
 					r.Case("save", tableTokens(sv.h.VerifLeases()), obs)
 				}
 			case k < 8: // renew an acknowledged binding
+				opName = "renew"
 				if b, ok := acked[lib.Hex(cl.key())]; ok {
 					mt, _ := sv.renew(cl, tokAddr(b.ip))
 					classes["renew"] = true
@@ -424,11 +488,14 @@ func histories(r *lib.Run, rng *lib.Rand) (files []savedFile) {
 			default: // DISCOVER without REQUEST by a client without a binding: a lease in state discover, not saved
 				// (a DISCOVER of a bound client moves its lease to state discover without saving: the binding is
 				// then in flux and the property says nothing about it)
+				opName = "discover"
 				if _, bound := acked[lib.Hex(cl.key())]; !bound {
 					sv.discoverOnly(cl, netip.Addr{})
 					classes["discover-only"] = true
 				}
 			}
+			// after EVERY step: the Allocated records on disk against the Allocated leases in memory
+			stale = checkDisk(r, sv, fname, opName, stale)
 		}
 		// the acknowledged bindings according to the table (hook), cross-checked with the ACK frames seen
 		var ackedTable []bindingT
@@ -471,7 +538,10 @@ func histories(r *lib.Run, rng *lib.Rand) (files []savedFile) {
 		for k := range classes {
 			r.Stat("hist.class."+k, 1)
 		}
-		if !sameBindings(b1.bindings, ackedSeen) {
+		if len(stale) > 0 {
+			// the file was stale at the end (reported per step): the restart restores what the file says
+			r.Stat("hist.restart-from-stale-file", 1)
+		} else if !sameBindings(b1.bindings, ackedSeen) {
 			key := "restart-bindings-differ"
 			for _, b := range ackedSeen {
 				in := false
@@ -574,7 +644,7 @@ func histories(r *lib.Run, rng *lib.Rand) (files []savedFile) {
 			sv2.h = b1.h
 			for _, cl := range clients {
 				b, ok := acked[lib.Hex(cl.key())]
-				if !ok {
+				if !ok || len(stale) > 0 {
 					continue
 				}
 				restoredHere := false
@@ -606,4 +676,63 @@ func histories(r *lib.Run, rng *lib.Rand) (files []savedFile) {
 		sv.close()
 	}
 	return files
+}
+
+var staleReported sync.Map
+
+// checkDisk compares, after a step, the Allocated records of the lease file with the Allocated leases in memory.
+//
+//	missing (in memory, not on disk): an acknowledged binding a restart would lose      -> file-misses-acked-binding
+//	stale   (on disk, not in memory): a binding a restart would resurrect               -> stale-file-after-<op>,
+//	  reported for the op after which the stale set grew; a stale record whose lease is in state discover with the
+//	  same address (a bound client re-negotiating) is counted, not reported: the disk is right to keep it.
+func checkDisk(r *lib.Run, sv *serverT, fname, op string, prev map[bindingT]bool) map[bindingT]bool {
+	txt, _ := os.ReadFile(fname)
+	toks := docTokens(txt)
+	if !isDoc(toks[0]) {
+		r.Viol("file-unreadable-after-step", "after "+op+": the lease file reads as "+toks[0], "")
+		return prev
+	}
+	disk := map[bindingT]bool{}
+	for _, t := range toks[3:] {
+		f := strings.Split(t, ",")
+		if f[1] == "2" {
+			disk[bindingT{f[0], f[2], f[3]}] = true
+		}
+	}
+	mem := map[bindingT]bool{}
+	rebinding := map[bindingT]bool{}
+	for _, l := range sv.h.VerifLeases() {
+		b := bindingT{lib.Hex(l.ClientID), lib.Hex(l.Addr.MAC), addrTok(l.Addr.IP)}
+		switch l.State {
+		case dhcp.StateAllocated:
+			mem[b] = true
+		case dhcp.StateDiscover:
+			rebinding[b] = true
+		}
+	}
+	r.Stat("hist.disk-checks", 1)
+	for b := range mem {
+		if !disk[b] {
+			r.Viol("file-misses-acked-binding", fmt.Sprintf("after %s: %v is Allocated in memory but not in the lease file", op, b), "")
+		}
+	}
+	stale := map[bindingT]bool{}
+	for b := range disk {
+		switch {
+		case mem[b]:
+		case rebinding[b]:
+			r.Stat("hist.disk.rebinding-client-kept", 1)
+		default:
+			stale[b] = true
+			if !prev[b] {
+				r.Stat("hist.disk.stale-after-"+op, 1)
+				key := "stale-file-after-" + op
+				if _, dup := staleReported.LoadOrStore(key, true); !dup {
+					r.Viol(key, fmt.Sprintf("after %s: the lease file still holds %v as Allocated, the table does not: a restart resurrects it", op, b), "")
+				}
+			}
+		}
+	}
+	return stale
 }
